@@ -84,7 +84,7 @@ def hellinger (T : Transc α) (x y : List α) : α :=
   let ly := sumL y
   if eqV lx 0 && eqV ly 0 then 0
   else if eqV lx 0 || eqV ly 0 then 1
-  else T.sqrt (1 - r / T.sqrt (lx * ly))
+  else T.sqrt (maxV 0 (1 - r / T.sqrt (lx * ly)))
 
 /-- only defined for 2-d data (`ValueError` otherwise): `none`. -/
 def haversine (T : Transc α) (x y : List α) : Option α :=
